@@ -168,6 +168,76 @@ def _fact_closure(c):
     return out
 
 
+_STRUCT_INT = {"B": 1, "H": 2, "I": 4, "L": 4, "Q": 8}
+
+
+def _struct_layout(fmt):
+    """(byte order, [(kind, width, count)]) of a struct format with explicit byte order and standard sizes (< > ! =), unsigned
+    integers, `s` strings and pad bytes only; None for anything else (native alignment, signed, floats)."""
+    import re as _re
+    fmt = fmt.replace(" ", "")
+    if not fmt or fmt[0] not in "<>!=":
+        return None
+    order = "little" if fmt[0] == "<" else "big"
+    if fmt[0] == "=":
+        import sys as _sys
+        order = _sys.byteorder
+    out = []
+    for cnt, ch in _re.findall(r"(\d*)([A-Za-z?])", fmt[1:]):
+        if "".join(c + k for c, k in _re.findall(r"(\d*)([A-Za-z?])", fmt[1:])) != fmt[1:]:
+            return None
+        k = int(cnt) if cnt else 1
+        if ch == "s":
+            out.append(("s", k, 1))
+        elif ch == "x":
+            out.append(("x", k, 1))
+        elif ch in _STRUCT_INT:
+            for _ in range(k):
+                out.append(("u", _STRUCT_INT[ch], 1))
+        else:
+            return None
+    return order, out
+
+
+def _struct_unpack(lay, buf, off, exact=True):
+    order, fields = lay
+    total = sum(w for _, w, _ in fields)
+    n = tm.blen(buf)
+    if isinstance(n, int) and not isinstance(n, bool):
+        if (exact and n != total + off) or n < total + off:
+            return T("raise", ("struct.error",))
+    elif exact:
+        return NotImplemented  # struct.unpack requires len(buffer) == size: not decidable for a buffer of unknown length
+    out = []
+    for kind, w, _ in fields:
+        piece = tm.slc(buf, off, off + w)
+        if kind == "s":
+            out.append(piece)
+        elif kind == "u":
+            out.append(tm.b2i(piece, order))
+        off += w
+    return tuple(out)
+
+
+def _struct_pack(lay, vals):
+    order, fields = lay
+    out = []
+    vals = list(vals)
+    for kind, w, _ in fields:
+        if kind == "x":
+            out.append(b"\x00" * w)
+            continue
+        v = vals.pop(0)
+        if kind == "u":
+            out.append(tm.i2b(v, w, order))
+        else:
+            n = tm.blen(v)
+            if not (isinstance(n, int) and not isinstance(n, bool)):
+                return NotImplemented
+            out.append(tm.cat([tm.slc(v, 0, w)] + ([b"\x00" * (w - n)] if n < w else [])))
+    return tm.cat(out)
+
+
 _OPERATOR_FNS = {"operator." + k: (v, 2) for k, v in {
     "xor": ast.BitXor, "or_": ast.BitOr, "and_": ast.BitAnd, "add": ast.Add, "sub": ast.Sub, "mul": ast.Mult, "lshift": ast.LShift,
     "rshift": ast.RShift, "floordiv": ast.FloorDiv, "mod": ast.Mod, "pow": ast.Pow, "concat": ast.Add}.items()}
@@ -267,6 +337,7 @@ class Evaluator:
         self.bind = {}  # term -> concrete representative of its region (E4)
         self._cur_cls = None  # (module, class) of the method under evaluation
         self.objects = {}  # term -> {attribute: value}: objects whose attributes the scenario under analysis fixes (vars() / getattr())
+        self.io_fn = None  # optional callable(method, receiver, args, kwargs) -> value / NotImplemented: scripted I/O device
         self.assume_fn = None  # optional callable(condition term) -> True / False / None: scripted outcome of environment predicates
 
     def decide(self, c):
@@ -1604,6 +1675,15 @@ class Evaluator:
             return tm.i2b(recv, w, en)
         if meth == "hex" and not pos:
             return tm.hexs(recv)
+        if isinstance(recv, T) and recv.op == "structobj" and not kw:
+            lay = _struct_layout(recv.args[0])
+            if lay is not None:
+                if meth == "unpack" and len(pos) == 1:
+                    return _struct_unpack(lay, pos[0], 0)
+                if meth == "unpack_from" and len(pos) in (1, 2) and (len(pos) == 1 or isinstance(pos[1], int)):
+                    return _struct_unpack(lay, pos[0], pos[1] if len(pos) == 2 else 0, exact=False)
+                if meth == "pack" and len(pos) == len(lay[1]):
+                    return _struct_pack(lay, pos)
         if meth == "digest" and isinstance(recv, T) and recv.op == "hashobj":
             return tm.hashf(recv.args[0], recv.args[1])
         if meth == "digest" and isinstance(recv, T) and recv.op == "hmacobj":
@@ -1714,8 +1794,12 @@ class Evaluator:
             return T("get", (tm._fz(recv), tm._fz(pos[0]), tm._fz(pos[1]) if len(pos) > 1 else None))
         if meth == "copy" and not pos:
             return clone(recv)
-        if meth in ("read", "write", "close", "tell", "seek", "truncate", "sendall", "recv", "send"):
+        if meth in ("read", "write", "close", "tell", "seek", "truncate", "sendall", "recv", "send", "recv_into", "readinto"):
             fr.summary.calls.append(("io:" + meth, [recv] + pos, kw, e, tuple(fr.guard), tuple(fr.facts), dict(fr.iters)))
+            if self.io_fn is not None:
+                r = self.io_fn(meth, recv, pos, kw)  # scripted device: the obligation plays the other end of the stream
+                if r is not NotImplemented:
+                    return r
             rty = {"tell": tm.INT, "recv": tm.BYTES}.get(meth, tm.ANY)
             return T("io", (meth, tm._fz(recv), tuple(tm._fz(p) for p in pos), len(fr.summary.calls)), rty)
         # method on self or on an object of a class of the package
@@ -1753,6 +1837,20 @@ class Evaluator:
             return tm.length(a0)
         if n in _OPERATOR_FNS and len(pos) == _OPERATOR_FNS[n][1] and not kw:
             return self.binop(_OPERATOR_FNS[n][0](), pos[0], pos[1], e)
+        if n in ("struct.unpack", "struct.unpack_from", "struct.pack", "struct.calcsize", "struct.Struct") and pos and isinstance(a0, (str, bytes)):
+            fmt = a0.decode() if isinstance(a0, bytes) else a0
+            lay = _struct_layout(fmt)
+            if lay is not None:
+                if n == "struct.Struct" and len(pos) == 1:
+                    return T("structobj", (fmt,))
+                if n == "struct.calcsize" and len(pos) == 1:
+                    return sum(w for _, w, _ in lay[1])
+                if n == "struct.unpack" and len(pos) == 2:
+                    return _struct_unpack(lay, pos[1], 0)
+                if n == "struct.unpack_from" and len(pos) in (2, 3) and (len(pos) == 2 or isinstance(pos[2], int)):
+                    return _struct_unpack(lay, pos[1], pos[2] if len(pos) == 3 else 0, exact=False)
+                if n == "struct.pack" and len(pos) == 1 + len(lay[1]):
+                    return _struct_pack(lay, pos[1:])
         if n == "functools.reduce" and 2 <= len(pos) <= 3 and not kw:
             seq0 = _concrete_iter(pos[1]) if not isinstance(pos[1], (str, bytes, dict)) else None
             if seq0 is not None and len(seq0) <= MAX_UNROLL:
